@@ -691,7 +691,7 @@ def run(ctx):
     binary = vf.build("c14_xml", "asan", ASAN_FLAGS)
     if thorough:
         vf.build("c14_xml", "fuzz", FUZZ_FLAGS)
-    scale = int(os.environ.get("VF_THOROUGH_SCALE", "100")) if thorough else 1      # thorough = quick counts x100 (+ libFuzzer)
+    scale = int(os.environ.get("VF_THOROUGH_SCALE", "20")) if thorough else 1      # thorough = quick counts x20 by default (x100 measured at 60-70 min on the shared machine; VF_THOROUGH_SCALE overrides) + libFuzzer
     n_docs, n_mut = 10000 * scale, 100000 * scale
     jobs = []
     k = 0
